@@ -290,6 +290,13 @@ Section C01Simp.
       apply IH; [exact Hev'|]. destruct Hcase as [[-> ->]|(Hl & -> & H2)]; lia.
   Qed.
 
+  Lemma simplify_fuel_enough m extra :
+    simp_loop eqb (S (length m) + extra) (enumerate_from 0 m) 0 = simplified_pairs eqb m.
+  Proof.
+    unfold simplified_pairs. apply simp_loop_fuel_mono; [reflexivity|].
+    rewrite length_enumerate. lia.
+  Qed.
+
   (** * (a) disjointness *)
   Lemma simplified_clean m :
     Nat.odd (length m) = true ->
